@@ -501,13 +501,13 @@ pub fn large_model(i: usize) -> ModelGame {
 			m
 		}
 		1 => {
-			// 70 000 frame rows (> 2^16), oldest layout, one character absent now and then
-			let v = (1, 0);
-			let mut m = simple_model((1, 0, 0), &[(0, false), (3, false)], 0, 12, Pattern::Random, 1, false);
+			// 70 000 frame rows (> 2^16), Frame Start but no Frame End (2.2), one character absent now and then
+			let v = (2, 2);
+			let mut m = simple_model((2, 2, 0), &[(0, false), (3, false)], 0, 12, Pattern::Random, 1, false);
 			for fi in 0..70_000usize {
 				m.frames.push(FrameOcc {
 					id: spec::FIRST_FRAME + fi as i32,
-					start: None,
+					start: Some(payload(Kind::FrameStart, v, fi as u64 + 5, Pattern::Random, 0)),
 					chars: vec![
 						Some(CharData { pre: payload(Kind::Pre, v, fi as u64, Pattern::Random, 0), post: payload(Kind::Post, v, fi as u64 + 7, Pattern::Random, 0) }),
 						(fi % 1000 != 999).then(|| CharData { pre: payload(Kind::Pre, v, fi as u64 + 9, Pattern::Random, 0), post: payload(Kind::Post, v, fi as u64 + 11, Pattern::Random, 0) }),
